@@ -71,9 +71,9 @@ def body_rows(spec, stats):
         stats.nontriv(jhash([spec["nodes"], spec["phases"]]), sample=S.summarize(spec))
 
 
-def _single_vs_all(sys, spec, df_all):
+def _single_vs_all(sys, spec, df_all, **kw):
     for ph in spec["phases"]:
-        one = B.solve(sys, phase=ph)
+        one = B.solve(sys, phase=ph, **kw)
         sub = df_all[df_all["Phase"] == ph].reset_index(drop=True)
         cols = list(one.columns)
         missing = [c for c in cols if c not in sub.columns]
@@ -133,6 +133,9 @@ def body_meta(case, stats):
     df = solve_or_skip(sys, stats)
     tab = Table(df)
     _single_vs_all(sys, spec, df)
+    # the same with the optional columns switched on (energy, ambient, tags)
+    kw = {"energy": True, "ta": 40.0, "tags": {"Tag": 1}}
+    _single_vs_all(sys, spec, solve_or_skip(sys, stats, **kw), **kw)
     # unknown phase
     bad = case["bad_phase"]
     if bad not in spec["phases"]:
